@@ -73,11 +73,12 @@ pub fn gen_case(t: &mut Tape) -> Case {
     let any_async = t.chance(1, 3);
     let use_async_trait = any_async && (dynamic || t.chance(1, 4));
     let n_methods = t.range(1, 4);
+    let names = prog::member_names(t, n_methods);
     let mut methods: Vec<Method> = vec![];
     for i in 0..n_methods {
         let m = if i > 0 && t.chance(1, 2) {
             let mut c = methods[i - 1].clone();
-            c.name = format!("m{i}");
+            c.name = names[i].clone();
             c.tag = format!("M{i}");
             c
         } else {
@@ -87,7 +88,7 @@ pub fn gen_case(t: &mut Tape) -> Case {
                     p.vt = VT::I32;
                 }
             }
-            Method { name: format!("m{i}"), tag: format!("M{i}"), is_async: any_async && t.chance(2, 3), params, has_gen: false, uses_u: false, typed_receiver: false }
+            Method { name: names[i].clone(), tag: format!("M{i}"), is_async: any_async && t.chance(2, 3), params, has_gen: false, uses_u: false, typed_receiver: false }
         };
         methods.push(m);
     }
